@@ -96,6 +96,11 @@ func (p *MetadataPersister) GetHeaderByLinkname''',"GetHeader no longer filters 
  #equivalent for the listed properties (re-indexing a rebuilt index is idempotent): ("M18","C16","pkg/fs/filesystem.go","	existingRoot, err := f.metadata.Metadata.GetRootPath(context.Background())\n	if err == config.ErrNoRootDirectory {","	existingRoot, err := f.metadata.Metadata.GetRootPath(context.Background())\n	if err == config.ErrNoRootDirectory || existingRoot == \"\" {","a rebuilt index (root stored as \"\") is rebuilt and re-rooted on every open"),
  #equivalent for C06 (a damaged header at the TAIL ends indexing either way): ("M19","C06","pkg/recovery/index.go","						if err == io.EOF {\n							// EOF\n							break\n						}\n\n						continue","						if err == io.EOF {\n							// EOF\n							break\n						}\n\n						return err","indexer gives up instead of resynchronising after a damaged header"),
  ("M20","C01","pkg/operations/update.go","			hdrToAppend := *hdr\n			hdrs = append(hdrs, &hdrToAppend)\n\n			if err := signature.SignHeader(hdr, writer.DriveIsRegular, o.pipes.Signature, o.crypto.Identity); err != nil {\n				return []*tar.Header{}, err\n			}\n\n			if err := encryption.EncryptHeader(hdr, o.pipes.Encryption, o.crypto.Recipient); err != nil {\n				return []*tar.Header{}, err\n			}\n\n			if err := tw.WriteHeader(hdr); err != nil {\n				return []*tar.Header{}, err\n			}\n\n			dirty = true\n\n			if !file.Info.Mode().IsRegular()","			hdrToAppend := *hdr\n			hdrs = append(hdrs, &hdrToAppend)\n			hdr.Gid = 0\n\n			if err := signature.SignHeader(hdr, writer.DriveIsRegular, o.pipes.Signature, o.crypto.Identity); err != nil {\n				return []*tar.Header{}, err\n			}\n\n			if err := encryption.EncryptHeader(hdr, o.pipes.Encryption, o.crypto.Recipient); err != nil {\n				return []*tar.Header{}, err\n			}\n\n			if err := tw.WriteHeader(hdr); err != nil {\n				return []*tar.Header{}, err\n			}\n\n			dirty = true\n\n			if !file.Info.Mode().IsRegular()","the header written to tape by a content update differs (gid) from the in-memory header that is indexed"),
+ #unreachable through the filesystem (File.Truncate grows by writing zeros and calls the cache's Truncate only to shrink): ("M21","C14","pkg/cache/write.go","	if grow := int(size) - f.Buff.Len(); grow > 0 {","	if grow := int(size) - f.Buff.Len(); grow > 1 {","in-memory cache: Truncate that grows a file by exactly one byte does nothing"),
+ ("M22","C01","pkg/persisters/metadata.go","as location from %v order by location desc limit 1`,","as location from %v order by lastknownrecord desc limit 1`,","last indexed position: ties inside one record broken arbitrarily"),
+ #equivalent (the root is never a tombstone and sorts first among rows of equal depth): ("M23","C17","pkg/persisters/metadata.go",'"/", ""))) as depth, name from %v where %v != 1`,','"/", ""))) as depth, name from %v where %v != 2`,',"root inferred from tombstones too"),
+ ("M24","C03","pkg/compression/compress.go","			l = lz4.Level9\n","			l = lz4.Level9\n			return nil, config.ErrCompressionLevelUnsupported\n","lz4 at the smallest level is refused"),
+ ("M25","C10","pkg/tape/manager.go","		r, rr, err := OpenTapeReadOnly(m.drive)\n		if err != nil {\n			m.physicalLock.Unlock()\n","		r, rr, err := OpenTapeReadOnly(m.drive)\n		if err != nil {\n","drive lock leaked when opening the drive for reading fails"),
 ]
 
 def run(cmd, **kw):
